@@ -6,6 +6,9 @@ from checks.common import CheckRun
 EXPLANATION = (
     "K4 (DESIGN §3.2). P tier: (1) relational lemma on the real CSEOptimizer._make_key/_value_key: equal keys imply equal "
     "operator, operands (modulo the replacement map), output type and output mode — proved for every pair of paths; "
+    "(1b) ConstantPropagationOptimizer._maybe_mark_dead marks a constant dead only if no live operation of any kind reads it "
+    "(reader kinds per the IR node table; operation lists of length 1-2, i.e. bounded list length), and every call site "
+    "passes the whole operation list (AST call-site obligation); "
     "(2) IR-level folding functions against S1 for all int32 operands. B tier (bounded): programs with repeated "
     "sub-expressions, folded constants and fan-out are compiled with and without optimisation and each build is "
     "compared with the S3 source semantics for all inputs by SMT (both equal to S3 => observationally equivalent)."
@@ -15,6 +18,10 @@ EXPLANATION = (
 def run(tier):
     cr = CheckRun("C10", tier, "other", EXPLANATION, "DESIGN §4 C10")
     cr.contracts(["contracts.c10", "contracts.c11"])
+    from pyvc import guards
+    # precondition of _maybe_mark_dead at its call sites: liveness is decided over the WHOLE operation list
+    cr.ext_obligations.append(guards.call_passes_param(
+        "dsl_compiler/src/ir/optimizer.py::ConstantPropagationOptimizer.optimize", "_maybe_mark_dead", 2, "ir_operations", min_calls=2))
     progs = gen.c10_scope(tier) + (gen.c01_scope("quick")[::4] if tier != "quick" else [])
     for optimize in (True, False):
         cr.bounded_check(
